@@ -9,7 +9,7 @@ import (
 func init() {
 	rule := "forced schedules on one real client.Client (harness-owned conn, gated codec, client.send.enter hook): 1..4 calls of kinds {Go, blocking Call, one-way Go}, " +
 		"events {register, encode failure, write failure/success, cancel, response frames (normal / error / undecodable / heartbeat-flagged / duplicate / unknown seq), " +
-		"server pushes with colliding seq, peer-close (reader termination), Close, and a fresh call entering send() while a teardown (peer-close or Close) is parked inside the ClientConnectionClose plugin} in random enabled orders; each schedule is executed step by step on the implementation " +
+		"server pushes with colliding seq, peer-close (reader termination) between frames and in the middle of a response frame (five byte-offset classes), Close, and a fresh call entering send() while a teardown (peer-close or Close) is parked inside the ClientConnectionClose plugin} in random enabled orders; each schedule is executed step by step on the implementation " +
 		"and replayed on the Lean multiplexer model; observables: per call number of Done signals and final outcome (or the blocking caller's return), " +
 		"push channel contents in order, IsShutdown; every case a specification case; non-trivial = schedule with at least one frame or fault; distinct = distinct schedule"
 	register("c03", "C03 focus (response routing, pushes, permutations): "+rule, func(o *Out, r *rand.Rand) { runMux(o, r, "c03") })
@@ -73,6 +73,11 @@ func runMux(o *Out, r *rand.Rand, focus string) {
 		{"GG", "r0 w0 H1"},    // a call entering send() while the reader winds the connection up
 		{"GB", "r0 w0 K1"},    // … or while Close is in progress
 		{"BGG", "r1 w1 H0 r2"},
+		{"GG", "r0 r1 w0 w1 f:0:k:5 f:1:-:6"}, // a response in an unknown serialize type fails its own call only
+		{"GG", "r0 w0 N1"},             // a call sent while the reader hands its connection-lost notice to a slow consumer
+		{"GBG", "r0 w0 f:0:qo:3 N1 r2"},
+		{"GG", "r0 w0 r1 w1 p:0:3 C"},  // the peer dies in the middle of the response to call 0
+		{"GB", "r0 w0 r1 w1 f:1:-:9 p:0:1"},
 	}
 	for _, c := range corpus {
 		muxCase(o, c[0], strings.Fields(c[1]))
@@ -93,7 +98,7 @@ func muxCase(o *Out, kinds string, evs []string) {
 	}
 	nontrivial := false
 	for _, e := range evs {
-		if e == "T" || e == "C" || e[0] == 'H' || e[0] == 'K' || e[0] == 'f' || e[0] == 'e' || e[0] == 'x' || e[0] == 'c' {
+		if e == "T" || e == "C" || e[0] == 'p' || e[0] == 'N' || e[0] == 'H' || e[0] == 'K' || e[0] == 'f' || e[0] == 'e' || e[0] == 'x' || e[0] == 'c' {
 			nontrivial = true
 		}
 		o.Count("ev." + e[:1])
